@@ -413,9 +413,9 @@ def run_case(case: dict, workdir: str, ext_so: str | None) -> dict:
     os.makedirs(root)
     out: dict = {"id": case["id"]}
     try:
-        b = Builder(cfg, root, case.get("compiled_as", "pyc"), ext_so, bool(case.get("hostile"))).build()
+        b = Builder(cfg, root, case.get("compiled_as", "pyc"), ext_so, case.get("xc_as", "pyd")).build()
         os.environ["C15_SENTINEL"] = b.sentinel
-        os.environ["C15_HOSTILE"] = "1" if case.get("hostile") else "0"
+        os.environ["C15_PATHMUT"] = cfg.get("pathmut", "none")
         os.environ["C15_CFAULTS"] = json.dumps(b.cfaults)
         rec = Recorder(cfg, root)
         rec.path0 = sys.path
@@ -478,6 +478,7 @@ def run_case(case: dict, workdir: str, ext_so: str | None) -> dict:
             events=rec.events,
             aux=rec.aux[:40],
             compiled_as=b.compiled_as,
+            xc_as=b.xc_as,
             pid=os.getpid(),
         )
         # restore so that one broken case does not poison the following in-process cases; the
